@@ -590,6 +590,13 @@ func (m *Machine) Draw(t *rapid.T, g *GenOpts) Action {
 			}
 		}
 		a.Ident = cands[uniform(t, len(cands), "who")]
+	case "setUnbonding":
+		// a parameter update that changes the unbonding period (possible for anybody on testnet
+		// chain ids; on mainnet ids it is rejected)
+		a.Kind = "updateParams"
+		a.Module = "dogfood"
+		a.Ident = uniform(t, len(m.idents()), "who")
+		a.N = 1 + uniform(t, 4, "newN")
 	case "updateParams":
 		a.Module = paramModules[uniform(t, len(paramModules), "module")]
 		attacker := uniform(t, len(m.idents()), "attacker")
